@@ -4,6 +4,7 @@ CFG = {
     "lean_exe": "lm_c01",
     "theorems": [
         "Leptos.Reactive.C01_read_eq_scratch",
+        "Leptos.Reactive.C01_untracked_snapshot",
         "Leptos.Reactive.C01_read_eq_scratch_noeff",
         "Leptos.Reactive.C01_scratch_fuel_irrelevant",
         "Leptos.Reactive.upd_ok",
